@@ -49,6 +49,7 @@ class Ctxt:
         self.mapped = R.node_mappings.get(self.parent.name) == rn
         self.rule = R.get_rule(self.parent.name) if self.mapped else get_rule(rn)
         self.kids = {}
+        self.other = None
         self.names = names_of(rn)
         self.rank = {n: i for i, n in enumerate(lang.spec_names(RULES[rn][1]))}
 
@@ -62,7 +63,26 @@ class Ctxt:
         self.parent.children = ch
         rule = self.rule   # one object for the whole enumeration of this rule (a caller-held Rule)
         try:
-            return rule.child_insert_index(self.parent, Node(c))
+            answer = rule.child_insert_index(self.parent, Node(c))
+            # the candidate in other guises: constructed with parent=, still attached to ANOTHER parent (a move), a copy
+            # of a node attached elsewhere (a copy keeps that parent link) - the answer is about self.parent only
+            if self.other is None:
+                self.other = build.make_node(self.rn, word=())
+            moving = Node(c)
+            self.other.children = [Node(a) for a in reversed(e)] + [moving, Node(c)]
+            for k in self.other.children:
+                k.parent = self.other
+            for label, cand in (("constructed with parent=", Node(c, parent=self.parent)),
+                                ("attached to another parent", moving), ("copy of a node attached elsewhere", moving.copy())):
+                try:
+                    alt = rule.child_insert_index(self.parent, cand)
+                except Exception as ex:  # noqa
+                    alt = "raised " + type(ex).__name__
+                if alt != answer:
+                    raise Violation("candidate-form-changes-answer",
+                                    f"candidate {c!r} {label}: index {alt!r}, for a detached candidate {answer!r}",
+                                    {"rule": self.rn, "existing": list(e), "candidate": c})
+            return answer
         finally:
             # an ordinary editing session validates the parent between edits; whatever validation remembers about
             # this parent must not influence the next suggestion (the next case re-uses the parent with other children)
@@ -84,11 +104,15 @@ def judge(cx, e, c):
             i = cx.index(e, c)
         except ChildNotAllowedError:
             return False
+        except Violation:
+            raise
         except Exception as ex:  # noqa
             raise Violation("foreign-candidate-other-exception:" + type(ex).__name__, repr(ex)[:200], case)
         raise Violation("foreign-candidate-accepted", f"returned {i!r} for a name the rule does not allow", case)
     try:
         i = cx.index(e, c)
+    except Violation:
+        raise
     except Exception as ex:  # noqa
         raise Violation("allowed-candidate-raises:" + type(ex).__name__, repr(ex)[:200], case)
     if not isinstance(i, int) or isinstance(i, bool) or not (0 <= i <= len(e)):
